@@ -100,6 +100,7 @@ package broker
 //@ func (c *GroupCoordinator) SyncGroup
 //@   requires has(c.groups, req.Group) ==> assignOK(mapval(c.groups, req.Group))
 //@   at assignPartitions#1 before assert [C12.sync_computes_assignment_once] len(state.assignments) == 0 && state.state == groupStateCompletingRebalance && req.MemberID == state.leaderID
+//@   at assignPartitions#1 after assert [C12.sync_assign_keeps_phase] state.state == groupStateCompletingRebalance && has(c.groups, req.Group) && state == mapval(c.groups, req.Group) && has(state.members, req.MemberID) && req.Generation == state.generationID
 //@   at encodeAssignment#1 before assert [C12.sync_hands_out_stored_entry] state == c.groups[req.Group] && sameSlice(arg0, state.assignments[req.MemberID])
 //@   ensures [C12.sync_assignment_respects_subscriptions] err == nil && old(has(c.groups, req.Group)) ==> has(c.groups, req.Group) && assignOK(mapval(c.groups, req.Group))
 //@   at persistGroupLocked#1 before assert [C12.sync_keeps_computed_assignment] old(has(c.groups, req.Group)) && old(len(mapval(c.groups, req.Group).assignments)) != 0 ==> mapval(c.groups, req.Group).assignments == old(mapval(c.groups, req.Group).assignments) && keepsMap("string", "[]assignmentTopic") && keepsMem("assignmentTopic") && keepsMem("int32")
